@@ -1,9 +1,11 @@
 import ChythonModel.Py.Wire
 import ChythonModel.Model.Pack
+import ChythonModel.Model.PackWF
 /-!
 Line-protocol driver for C10 (requests and responses are flat int lists, see `harness/props/c10.py`).
 
   pack <mol>                        -> ok <bytes>            | err <kind>
+  wf <mol>                          -> ok 1|0   (the executable format-limit test `wfb`, hypothesis of the theorems)
   unpack <bytes>                    -> ok <decoded>          | err <kind>
   unpacka <k> {n p q}*k <bytes>     -> ok <decoded> after the cis/trans re-attachment with `centers`
   packlen <bytes>                   -> ok <n>
@@ -101,6 +103,10 @@ def handle (line : String) : String :=
       | "pack" =>
         match parseMol xs with
         | some (m, []) => showRes showNats (encode m)
+        | _ => "err parse"
+      | "wf" =>
+        match parseMol xs with
+        | some (m, []) => if wfb m then "ok 1" else "ok 0"
         | _ => "err parse"
       | "unpack" => showRes showDecoded (decode (bytesOf xs))
       | "unpacka" =>
